@@ -122,4 +122,103 @@ def constants():
         f"({c}, {'true' if ty == 'main' else 'false'})" for c, ty in bip44._NETWORK_TYPE_FROM_COIN_TYPE.items()) + "]\n"
     t += "def BIP44_PURPOSES : List (Nat × String) := [" + ", ".join(
         f"({p}, \"{st}\")" for p, st in sorted(bip44.SCRIPT_TYPE_FROM_PURPOSE.items())) + "]\n"
+
+    t += _bip85_applications()
+    return t
+
+
+# ---- BIP85 applications (bip85.py): path templates, bounds, the dice reader, the per-version network bytes
+_BIP85_APPS = ["mnemonic_from_root_key", "wif_from_root_key", "xprv_from_root_key", "bytes_entropy_from_root_key",
+               "base64_password_from_root_key", "base85_password_from_root_key", "rolls_from_root_key",
+               "rsa_drng_from_root_key"]
+
+
+def _path_template(fn):
+    """The levels of the f-string(s) a bip85 function builds its derivation path from, in order: each level is a decimal
+    literal or the Python expression between the braces; every level must be written hardened (`...h`)."""
+    tree = ast.parse(inspect.getsource(fn))
+    parts = []
+    for n in ast.walk(tree):
+        if isinstance(n, ast.JoinedStr) and any(isinstance(v, ast.Constant) and "/" in str(v.value) for v in n.values):
+            txt = ""
+            for v in n.values:
+                if isinstance(v, ast.Constant):
+                    txt += v.value
+                elif isinstance(v, ast.FormattedValue) and v.format_spec is None and v.conversion == -1:
+                    txt += "{" + ast.unparse(v.value) + "}"
+                else:
+                    raise ValueError(f"bip85.{fn.__name__}: unexpected f-string piece")
+            parts.append((n.lineno, n.col_offset, txt))
+    parts = [x[2] for x in sorted(parts)]
+    if not parts or not parts[0].startswith("m/"):
+        raise ValueError(f"bip85.{fn.__name__}: no derivation path f-string of the expected shape: {parts}")
+    levels, optional = [], []
+    for k, txt in enumerate(parts):
+        body = txt[2:] if k == 0 else txt
+        if k > 0 and not txt.startswith("/"):
+            raise ValueError(f"bip85.{fn.__name__}: path continuation {txt!r}")
+        for lv in body.strip("/").split("/"):
+            m = re.fullmatch(r"(\d+|\{[^{}]+\})h", lv)
+            if not m:
+                raise ValueError(f"bip85.{fn.__name__}: level {lv!r} is not a hardened literal or expression")
+            (levels if k == 0 else optional).append(m.group(1).strip("{}"))
+    return levels, optional
+
+
+def _bip85_applications():
+    t = ""
+    rows = []
+    for name in _BIP85_APPS:
+        lv, opt = _path_template(getattr(bip85, name))
+        cell = lambda x_: f'("", {x_})' if x_.isdigit() else f'("{x_}", 0)'   # noqa: E731
+        rows.append(f'  ("{name}", [' + ", ".join(cell(x) for x in lv) + "], [" + ", ".join(cell(x) for x in opt) + "])")
+    t += "/-- the derivation path each bip85 application writes (read off the AST of its f-string): (function, levels, "
+    t += "levels appended when the optional argument is given); a level is a decimal literal or the source expression; "
+    t += "every level is written hardened -/\n"
+    t += "def BIP85_PATHS : List (String × List (String × Nat) × List (String × Nat)) := [\n" + ",\n".join(rows) + "]\n"
+    for nm in ("_MIN_BYTES", "_MAX_BYTES", "_MIN_B64_LEN", "_MAX_B64_LEN", "_MIN_B85_LEN", "_MAX_B85_LEN", "_MIN_SIDES",
+               "_MIN_ROLLS", "_DRNG_SEED_SIZE"):
+        t += f"def BIP85{nm} : Nat := {int(getattr(bip85, nm))}\n"
+    bounds = [("bytes_entropy_from_root_key", "num_bytes", "_MIN_BYTES", "_MAX_BYTES", "entropy[:num_bytes]"),
+              ("base64_password_from_root_key", "pwd_len", "_MIN_B64_LEN", "_MAX_B64_LEN", "b64encode(entropy).decode('ascii')[:pwd_len]"),
+              ("base85_password_from_root_key", "pwd_len", "_MIN_B85_LEN", "_MAX_B85_LEN", "b85encode(entropy).decode('ascii')[:pwd_len]")]
+    for fn, var, lo, hi, cut in bounds:
+        src = _src(getattr(bip85, fn))
+        if f"if not {lo} <= {var} <= {hi}:" not in src or f"return {cut}" not in src:
+            raise ValueError(f"bip85.{fn}: bounds check / truncation has an unexpected shape")
+    t += "/-- `bip85._ENTROPY_BYTES`: words -> entropy bytes -/\ndef BIP85_ENTROPY_BYTES : List (Nat × Nat) := [" + ", ".join(
+        f"({k}, {v})" for k, v in sorted(bip85._ENTROPY_BYTES.items())) + "]\n"
+    t += "/-- `bip85._LANGUAGE_INDEXES` sorted by code -/\ndef BIP85_LANGUAGES : List (String × Nat) := [" + ", ".join(
+        f'("{k}", {v})' for k, v in sorted(bip85._LANGUAGE_INDEXES.items(), key=lambda kv: kv[1])) + "]\n"
+    sm = _src(bip85.mnemonic_from_root_key)
+    if "mnemonic_from_entropy(entropy[:_ENTROPY_BYTES[words]], lang)" not in sm:
+        raise ValueError("bip85.mnemonic_from_root_key: truncation has an unexpected shape")
+    sw = _src(bip85.wif_from_root_key)
+    if "wif_from_prv_key(entropy[:32], network, compressed=True)" not in sw:
+        raise ValueError("bip85.wif_from_root_key: unexpected shape")
+    sx = _src(bip85.xprv_from_root_key)
+    for piece in ("depth=0", "parent_fingerprint=b'\\x00' * 4", "index=0", "chain_code=entropy[:32]", "key=b'\\x00' + entropy[32:]",
+                  "version=network_from_name(network).bip32_prv"):
+        if piece not in sx:
+            raise ValueError(f"bip85.xprv_from_root_key: expected `{piece}`")
+    # the dice reader: width arithmetic, byte order, shift, acceptance test -- the byte order is a generated constant
+    sr = _src(bip85.rolls_from_root_key)
+    for piece in ("bits_per_roll = (sides - 1).bit_length()", "bytes_per_roll = -(-bits_per_roll // 8)",
+                  "excess_bits = 8 * bytes_per_roll - bits_per_roll", "while len(history) < rolls:", "trial >>= excess_bits",
+                  "if trial < sides:", "history.append(trial)", "if rolls < _MIN_ROLLS:", "if sides < _MIN_SIDES:",
+                  "drng = drng_from_der_path(root_key, der_path)"):
+        if piece not in sr:
+            raise ValueError(f"bip85.rolls_from_root_key: expected `{piece}`")
+    order = _one(r"trial = int\.from_bytes\(drng\.read\(bytes_per_roll\), byteorder='(\w+)'\)", sr, "dice trial byte order")
+    t += f"/-- the byte order `rolls_from_root_key` reads a trial in (BIP85: big) -/\ndef BIP85_ROLLS_BYTEORDER : String := \"{order}\"\n"
+    sd = _src(bip85.BIP85DRNG)
+    if "shake_256(self._entropy).digest(self._cursor)[start:]" not in sd or "bytes_from_octets(entropy, _DRNG_SEED_SIZE)" not in sd:
+        raise ValueError("bip85.BIP85DRNG: unexpected shape")
+    # what an extended-key version says about its network, as the applications read it
+    rows = []
+    for v in sorted(network.XPRV_VERSIONS_ALL | network.XPUB_VERSIONS_ALL):
+        net = network.network_from_name(network.network_from_xkeyversion(v))
+        rows.append(f"  ({_bl(v)}, {_bl(net.wif)}, {_bl(net.bip32_prv)})")
+    t += "/-- per extended-key version: `network_from_name(network_from_xkeyversion(v))`'s `wif` and `bip32_prv` bytes -/\n"
+    t += "def BIP85_NET_OF_VERSION : List (Btc.Bytes × Btc.Bytes × Btc.Bytes) := [\n" + ",\n".join(rows) + "]\n"
     return t
